@@ -1,7 +1,9 @@
 package props
 
 import (
+	"fmt"
 	"os"
+	"os/exec"
 	"path/filepath"
 	"strings"
 
@@ -46,12 +48,60 @@ func (s *sandbox) read(rel string) string {
 
 func (s *sandbox) remove() { os.RemoveAll(s.Root) }
 
+// shadowEvery: one in-process run in shadowEvery is repeated by the real binary on a copy of the scratch tree, and the
+// two must agree (exit status, stdout, stderr, resulting tree). The in-process driver calls mainCmd.Run and reproduces
+// what runMain does around it; only the real binary goes through runMain itself.
+const shadowEvery = 61
+
 // run executes gopatch with cwd = s.Root/cwdRel.
 func (s *sandbox) run(real bool, cwdRel string, args []string, stdin string) drive.Result {
 	if real {
 		return drive.RunReal(filepath.Join(s.env.BinDir, "gopatch.real"), s.path(cwdRel), args, stdin)
 	}
-	return s.env.Private["cli"].(*drive.Server).Run(s.path(cwdRel), args, stdin)
+	n, _ := s.env.Private["cli-calls"].(int)
+	s.env.Private["cli-calls"] = n + 1
+	shadow := ""
+	if n%shadowEvery == shadowEvery-1 {
+		shadow = s.Root + ".real"
+		os.RemoveAll(shadow)
+		if err := exec.Command("cp", "-a", s.Root, shadow).Run(); err != nil {
+			shadow = ""
+		}
+	}
+	r := s.env.Private["cli"].(*drive.Server).Run(s.path(cwdRel), args, stdin)
+	if shadow != "" {
+		defer os.RemoveAll(shadow)
+		rargs := make([]string, len(args))
+		for i, a := range args {
+			rargs[i] = strings.ReplaceAll(a, s.Root, shadow)
+		}
+		rr := drive.RunReal(filepath.Join(s.env.BinDir, "gopatch.real"), filepath.Join(shadow, cwdRel), rargs, stdin)
+		norm := func(x string) string { return strings.ReplaceAll(x, shadow, s.Root) }
+		var diff string
+		switch {
+		case r.Panic != "" || rr.Panic != "":
+			// crashes are judged by the caller
+		case rr.Exit != r.Exit:
+			diff = fmt.Sprintf("exit status %d (real binary) vs %d (mainCmd.Run in process)", rr.Exit, r.Exit)
+		case norm(rr.Stdout) != r.Stdout:
+			diff = fmt.Sprintf("stdout %q (real binary) vs %q", norm(rr.Stdout), r.Stdout)
+		case norm(rr.Stderr) != r.Stderr:
+			diff = fmt.Sprintf("stderr %q (real binary) vs %q", norm(rr.Stderr), r.Stderr)
+		default:
+			a, err1 := drive.Snap(s.Root)
+			b, err2 := drive.Snap(shadow)
+			if err1 == nil && err2 == nil {
+				if d := a.Diff(b, true); d != "" {
+					diff = "resulting trees differ:\n" + d
+				}
+			}
+		}
+		if diff != "" {
+			prev, _ := s.env.Private["divergence"].(string)
+			s.env.Private["divergence"] = prev + fmt.Sprintf("gopatch %s: %s\n", strings.Join(args, " "), diff)
+		}
+	}
+	return r
 }
 
 // believeIfReal runs judge through the in-process driver; a violation is
